@@ -19,7 +19,9 @@ RULE = ("single-language sets of 1-4 cues with distinct increasing times; each c
         "SRT / MicroDVD grammars). Non-trivial: the cue text contains a metacharacter atom or "
         "an empty line. '|' is not generated for MicroDVD. "
         "Also: empty lines in the form of a blank text node (' ', '', U+00A0) between two "
-        'breaks, and a writer object that has written another set before. ')
+        'breaks, and a writer object that has written another set before. '
+        "A line may also be cut into 2-3 adjacent text nodes at any character (also inside a "
+        "delimiter such as --> or &amp;), and a caption may begin or end with 1-2 BREAK nodes. ")
 ASSUMPTIONS = [
     "a line split into several text nodes is compared with all whitespace removed (writers "
     "differ, legitimately, in whether they join text nodes with a space)",
@@ -38,7 +40,8 @@ def case_strategy(tier):
         w = draw(st.sampled_from(sorted(WRITERS)))
         ln = gen.lines(meta=True, pipe=(w != "microdvd"), markers=True)
         s = draw(gen.simple_set(ln, 1, 4, gen.HOUR, min_dur=gen.SEC, empty_lines=True,
-                                split_nodes=True, min_gap=40 * gen.MS, empty_kinds=("br", "br", "style")))
+                                split_nodes=True, min_gap=40 * gen.MS, empty_kinds=("br", "br", "style"),
+                                split_anywhere=True, edge_breaks=True))
         if w in ("webvtt", "dfxp") and draw(st.integers(0, 3)) == 0:
             # text nodes positioned differently: WebVTT splits such a caption into several cues
             # with the same times (re-assembled by the check)
